@@ -524,6 +524,15 @@ def check(ctx: Ctx, hyps, goal_neg, timeout_ms=10000, stats: Stats | None = None
                 m = s.model()
                 model = {n: _model_value(m, v) for n, v in ctx.inputs.items()}
                 model["PI"] = _model_value(m, ctx.pi)
+                strs = {}
+                for d in m.decls():
+                    if d.arity() == 0 and d.range() == z3.StringSort():
+                        try:
+                            strs[d.name()] = m[d].as_string()
+                        except Exception:
+                            pass
+                if strs:
+                    model["__strings__"] = strs
             break
     dt = time.time() - t0
     info = {"ms": int(dt * 1000), "side": len(side)}
